@@ -38,15 +38,15 @@ import (
 // error of an unnamed type.
 const (
 	fOkC07 = iota
-	fConnC07
-	fWriteC07
-	fReadHdrC07
-	fTimeoutC07
-	fBrokenC07
-	fFcgiConnC07
-	fFcgiReadHdrC07
-	fOtherC07
-	fFcgiWriteC07
+	fConnC07        // bfe_http.ConnectError
+	fWriteC07       // bfe_http.WriteRequestError
+	fOtherC07       // an error type the switch does not name
+	fFcgiWriteC07   // bfe_fcgi.WriteRequestError
+	fReadHdrC07     // bfe_http.ReadRespHeaderError
+	fTimeoutC07     // bfe_http.RespHeaderTimeoutError
+	fBrokenC07      // bfe_http.TransportBrokenError
+	fFcgiConnC07    // bfe_fcgi.ConnectError
+	fFcgiReadHdrC07 // bfe_fcgi.ReadRespHeaderError
 	nFaultC07
 )
 
@@ -159,6 +159,7 @@ func (t *rtC07) RoundTrip(r *bfe_http.Request) (*bfe_http.Response, error) {
 		return &bfe_http.Response{StatusCode: 200, Body: bfe_http.EofReader}, nil
 	}
 	vrt.Known("C07-fcgi-write-error-panics", k == fFcgiWriteC07)
+	vrt.Known("C08-fcgi-write-error-panics", k == fFcgiWriteC07)
 	return nil, errC07(k)
 }
 
@@ -181,7 +182,7 @@ func ipC07() *int { v := 1000; return &v }
 
 // buildC07 builds the whole scenario. nb0/nb1: backends in s0/s1; bh: add GSLB_BLACKHOLE (with one
 // backend configured for it, so that "never forwards to the blackhole" is not vacuous).
-func buildC07(nb0, nb1 int, bh bool, wlc bool) *scenC07 {
+func buildC07(nb0, nb1 int, bh bool, wlc bool, allAvail bool) *scenC07 {
 	s := &scenC07{rich: -1}
 
 	// --- balancer table from config structs (real BalTableReload -> Reload/BackendReload/Update)
@@ -200,6 +201,9 @@ func buildC07(nb0, nb1 int, bh bool, wlc bool) *scenC07 {
 
 	failNum := vrt.Int("failnum")
 	vrt.Assume(failNum >= 1 && failNum <= 3)
+	if allAvail {
+		vrt.Assume(failNum == 3) // fixed threshold: keeps the retry-rule harness small (the budget harness varies it)
+	}
 	schem, uri, sc, succ, cto, civ := "tcp", "/", 200, 1, 1, 3600000
 	checkConf := &cluster_conf.BackendCheck{Schem: &schem, Uri: &uri, StatusCode: &sc, FailNum: &failNum,
 		SuccNum: &succ, CheckTimeout: &cto, CheckInterval: &civ}
@@ -218,6 +222,9 @@ func buildC07(nb0, nb1 int, bh bool, wlc bool) *scenC07 {
 	s.rm, s.cr = vrt.Int("retryMax"), vrt.Int("crossRetry")
 	vrt.Assume(s.rm >= 0 && s.rm <= vrt.Param("RM", 2))
 	vrt.Assume(s.cr >= 0 && s.cr <= vrt.Param("CR", 1))
+	if vrt.Param("RFIX", 0) == 1 { // fixed retry settings (the retry-rule harness does not vary the budget)
+		vrt.Assume(s.rm == vrt.Param("RM", 2) && s.cr == vrt.Param("CR", 1))
+	}
 	rm, cr := s.rm, s.cr
 	strategy, sticky, mode := cluster_conf.ClientIpOnly, false, cluster_conf.BalanceModeWrr
 	if wlc {
@@ -250,7 +257,9 @@ func buildC07(nb0, nb1 int, bh bool, wlc bool) *scenC07 {
 		_, isBH, _, bks := bal_gslb.VerifHelpSubC07(bal, si)
 		s.subBH = append(s.subBH, isBH)
 		for _, b := range bks {
-			b.SetAvail(vrt.Bool("avail"))
+			if !allAvail {
+				b.SetAvail(vrt.Bool("avail"))
+			}
 			s.bks = append(s.bks, b)
 			s.subOf = append(s.subOf, si)
 		}
@@ -313,7 +322,6 @@ func (s *scenC07) forwardFilterC07() {
 		s.fwdSeen++
 		if vrt.Choose("forward-verdict", 2) == 1 {
 			s.fwdFin = true
-			vrt.Known("C07-forward-finish-decrements-uncounted-backend", true)
 			return bfe_module.BfeHandlerFinish
 		}
 		return bfe_module.BfeHandlerGoOn
@@ -325,12 +333,10 @@ func (s *scenC07) forwardFilterC07() {
 // availability, per-attempt fault kinds and per-attempt forward-filter verdicts.
 func VerifC07_connnum() {
 	nb := vrt.Param("NB", 2)
-	s := buildC07(vrt.Range("nb0", 1, nb), vrt.Range("nb1", 1, nb), vrt.Choose("blackhole", 2) == 1,
-		vrt.Choose("wlc", vrt.Param("MODES", 1)) == 1)
+	s := buildC07(vrt.Range("nb0", 1, nb), vrt.Range("nb1", 1, nb), vrt.Choose("blackhole", 1+vrt.Param("BH", 1)) == 1,
+		vrt.Choose("wlc", vrt.Param("MODES", 1)) == 1, false)
 	s.kinds, s.kindsRest = vrt.Param("K", nFaultC07), vrt.Param("K", nFaultC07)
-	if vrt.Choose("with-forward-filter", 2) == 1 {
-		s.forwardFilterC07()
-	}
+	s.forwardFilterC07()
 	s.requestC07("GET", 0)
 	for j := range s.bks {
 		vrt.Assert(s.bks[j].ConnNum() == 0, "C07/initially-zero")
@@ -351,8 +357,19 @@ func VerifC07_connnum() {
 
 	s.p.FinishReq(nil, s.req)
 
+	// every backend other than the last assigned one first, the last assigned one at the end: the known
+	// class below is exactly "a forward filter finished the request and the backend it was about to
+	// use ends at -1"; any other deviation is still reported
 	for j := range s.bks {
-		c := s.bks[j].ConnNum()
+		if j != cur {
+			c := s.bks[j].ConnNum()
+			vrt.Assert(c >= 0, "C07/never-negative-after-finish")
+			vrt.Assert(c == 0, "C07/zero-after-finish")
+		}
+	}
+	if cur >= 0 {
+		c := s.bks[cur].ConnNum()
+		vrt.Known("C07-forward-finish-decrements-uncounted-backend", s.fwdFin && c == -1)
 		vrt.Assert(c >= 0, "C07/never-negative-after-finish")
 		vrt.Assert(c == 0, "C07/zero-after-finish")
 	}
